@@ -91,6 +91,8 @@ func (c checkSchema) checkNode(node ischema.Node, ss map[string]ischema.Type) {
 	case *ischema.MixedNode:
 		c.checkCompatibilityOfConstraints(node)
 		c.checkLinksOfNode(node, ss) // can panic
+		// the root of an `or` rule-set type: {type: "object", additionalProperties: "@a"}
+		c.checkAdditionalPropertiesConstraint(node, ss)
 	case *ischema.MixedValueNode:
 		c.checkCompatibilityOfConstraints(node)
 		c.checkLinksOfNode(node, ss) // can panic
